@@ -84,10 +84,12 @@ def fk(
                 si=si,
                 dx=dx,
                 vbounds=vbounds,
+                btype=btype,
                 ntr_pad=ntr_pad,
                 ntr_tap=ntr_tap,
                 lagc=lagc,
                 collection=None,
+                kfilt=kfilt,
             )
         return xout
 
@@ -196,8 +198,10 @@ def kfilt(
                 x=x[sel, :],
                 ntr_pad=0,
                 ntr_tap=None,
+                lagc=lagc,
                 collection=None,
                 butter_kwargs=butter_kwargs,
+                gpu=gpu,
             )
         return xout
     nx, nt = x.shape
